@@ -335,10 +335,14 @@ type parItem struct {
 	dump  string
 	bytes []byte
 	post  string
+	// a malformed input (the encoding cut short) and what decoding it gives alone
+	cut     []byte
+	cutSt   string
+	cutPost string
 }
 
 func oracleC20(rep *report, r *rng) {
-	rep.Rule = "8..16 goroutines, each with its own messages (every protocol, frames with checksum services, left/zero/NUL padded and short text, lists) and its own buffers, encode and decode in parallel; every result is compared with the result computed sequentially beforehand. Run under the race detector."
+	rep.Rule = "8..16 goroutines, each with its own messages and truncated copies of their encodings (every protocol, frames with checksum services, left/zero/NUL padded and short text, lists) and its own buffers, encode and decode in parallel; every result is compared with the result computed sequentially beforehand. Run under the race detector."
 	G := 8
 	if rep.thorough {
 		G = 16
@@ -353,7 +357,7 @@ func oracleC20(rep *report, r *rng) {
 				case 0:
 					t = frameTypes[r.intn(len(frameTypes))]
 				case 1:
-					t = typeByNameOrPick(r, "sample-bin.StringPacket")
+					t = typeByNameOrPick(r, []string{"sample-bin.StringPacket", "sample-bin.BasicPacket"}[(k/4)%2])
 				default:
 					t = r.pickType()
 				}
@@ -363,7 +367,21 @@ func oracleC20(rep *report, r *rng) {
 				if st != "ok" {
 					continue
 				}
-				items[g] = append(items[g], parItem{t, d, enc, dumpMsg(m)})
+				it := parItem{t: t, dump: d, bytes: enc, post: dumpMsg(m)}
+				if len(enc) > 0 {
+					// malformed packets arrive among the good ones: cut anywhere, now and then just inside the last element
+					c := r.intn(len(enc))
+					if r.chance(1, 3) && len(enc) > 3 {
+						c = len(enc) - 1 - r.intn(3)
+					}
+					it.cut = append([]byte{}, enc[:c]...)
+					recv := t.New()
+					it.cutSt = callDecode(recv, bytes.NewBuffer(append([]byte{}, it.cut...)))
+					if it.cutSt == "ok" {
+						it.cutPost = dumpMsg(recv)
+					}
+				}
+				items[g] = append(items[g], it)
 			}
 		}
 		var wg sync.WaitGroup
@@ -391,6 +409,15 @@ func oracleC20(rep *report, r *rng) {
 							fails[g] = &failure{Oracle: "parallel-decode", Type: it.t.QName(), What: "Decode in parallel (" + st2 + ") produced another message than alone",
 								Input: inputOf(it.t, "bytes_hex", hx(it.bytes), "alone", it.post, "parallel", dumpMsg(recv), "goroutines", G)}
 							return
+						}
+						if it.cut != nil {
+							recv := it.t.New()
+							st3 := callDecode(recv, bytes.NewBuffer(append([]byte{}, it.cut...)))
+							if st3 != it.cutSt || (st3 == "ok" && dumpMsg(recv) != it.cutPost) {
+								fails[g] = &failure{Oracle: "parallel-decode-malformed", Type: it.t.QName(), What: "Decode of a truncated input in parallel (" + st3 + ") differs from the same call alone (" + it.cutSt + ")",
+									Input: inputOf(it.t, "bytes_hex", hx(it.cut), "alone", it.cutPost, "parallel", dumpMsg(recv), "goroutines", G)}
+								return
+							}
 						}
 					}
 				}
